@@ -128,7 +128,7 @@ def run_case(case):
 
     for sep in SEPS:
         evals += 1
-        got, err = call(lambda: f.split(sep))
+        got, err = call(lambda: f.split(sep) if len(s) % 2 else f.split(sep=sep, regex=False))
         pieces_check("split", [sep], got, err, s.split(sep), piece_ranges_sep(s, sep))
     for pat in PATTERNS:
         evals += 1
@@ -178,7 +178,12 @@ def run_case(case):
             for fill in (None, "*", " "):
                 evals += 1
                 args = (w,) if fill is None else (w, fill)
-                got, err = call(lambda: getattr(f, m)(*args))
+                if (w + len(s)) % 2 and fill is not None:
+                    got, err = call(lambda: getattr(f, m)(width=w, fillchar=fill))
+                elif (w + len(s)) % 3 == 0 and fill is None:
+                    got, err = call(lambda: getattr(f, m)(width=w))
+                else:
+                    got, err = call(lambda: getattr(f, m)(*args))
                 want = getattr(s, m)(*args)
                 if err is not None:
                     res.viol(m + "_raised", args=list(args), desc=desc, error=exc_str(err))
